@@ -326,6 +326,56 @@ fn replay_ladder(case: &Value, _env: &Env) -> CaseResult {
     ladder_case(case["shape"].as_str().unwrap_or("not"), case["depth"].as_u64().unwrap_or(16) as usize, case["doc"].as_u64().unwrap_or(0) as usize, &mut st)
 }
 
+/// Public entry points that take a text and an offset from *different* sources:
+/// JmespathError::new with any offset (inside a character, beyond the end) and
+/// Expression::new with a label that is not the text the tree was parsed from,
+/// followed by a failing search.  Nothing may panic.
+fn api_totality(src: &mut Src, st: &mut Stats, _env: &Env) -> CaseResult {
+    use jmespath::{ErrorReason, JmespathError};
+    let n = src.size(60);
+    let mut label = String::new();
+    for _ in 0..n {
+        match src.below(5) {
+            0 => label.push_str(*src.pick(&["é", "日本", "😀", "€", "\n"])),
+            _ => label.push(gen_char(src)),
+        }
+    }
+    st.eval();
+    // 1. the constructor with any offset
+    let offset = match src.below(3) {
+        0 => src.below(label.len() + 1),
+        1 => label.len() + src.below(5),
+        _ => src.below(4000),
+    };
+    let l2 = label.clone();
+    if let Err(p) = catch(std::panic::AssertUnwindSafe(move || {
+        let e = JmespathError::new(&l2, offset, ErrorReason::Parse("x".into()));
+        let _ = e.to_string();
+    })) {
+        return Err(Failure::new("api-totality", "panic", format!("JmespathError::new / Display panicked: {}", p), json!({"text": label, "offset": offset})));
+    }
+    // 2. a cached tree under another label, searched so that it fails at run time
+    let exprs = ["floor(price)", "a.b.nope(@)", "xs[::0]", "sort_by(xs, &to_array(@))", "`[1, 2]` | abs(@)", "          abs('x')", "not_null(z) || length(`1`)"];
+    let text = *src.pick(&exprs);
+    let ast = jmespath::parse(text).map_err(|e| Failure::new("api-totality", "harness-expr", e.to_string(), json!({})))?;
+    let l3 = label.clone();
+    let r = catch(std::panic::AssertUnwindSafe(move || {
+        let ex = jmespath::Expression::new(l3, ast, &*jmespath::DEFAULT_RUNTIME);
+        let v = jmespath::Variable::from_json("{\"price\":\"12.5\",\"xs\":[1,2],\"a\":{\"b\":1}}").unwrap();
+        match ex.search(v) {
+            Ok(_) => "ok".to_string(),
+            Err(e) => e.to_string(),
+        }
+    }));
+    if let Err(p) = r {
+        return Err(Failure::new("api-totality", "panic", format!("search through Expression::new panicked: {}", p), json!({"label": label, "tree_of": text})));
+    }
+    if !label.is_ascii() && st.nontrivial(&format!("{}|{}|{}", label, offset, text)) {
+        st.sample(|| json!({"label": label, "offset": offset, "tree_of": text}));
+    }
+    Ok(())
+}
+
 fn fixed_cases(_env: &Env, st: &mut Stats) -> Vec<Failure> {
     let mut out = vec![];
     for (e, d) in [("a[1::2147483647]", "{\"a\":[1,2,3]}"), ("a[-2147483648]", "{\"a\":[1]}"), ("a[-2147483648:2147483647:-2147483648]", "{\"a\":[1,2]}")] {
@@ -363,6 +413,7 @@ pub fn property() -> Property {
             Sub::Bytes(BytesSub { name: "strings", f: strings, max_len: 1500, quick: Budget { threads: 8, cases: 8000 }, thorough: Budget { threads: 16, cases: 400_000 }, keep_unreproducible: false }),
             Sub::Bytes(BytesSub { name: "arithmetic", f: arithmetic, max_len: 64, quick: Budget { threads: 8, cases: 20_000 }, thorough: Budget { threads: 16, cases: 1_000_000 }, keep_unreproducible: false }),
             Sub::Bytes(BytesSub { name: "builtin-calls", f: builtin_calls, max_len: 32, quick: Budget { threads: 8, cases: 10_000 }, thorough: Budget { threads: 16, cases: 300_000 }, keep_unreproducible: false }),
+            Sub::Bytes(BytesSub { name: "api-totality", f: api_totality, max_len: 300, quick: Budget { threads: 4, cases: 4000 }, thorough: Budget { threads: 16, cases: 100_000 }, keep_unreproducible: false }),
             Sub::Custom(CustomSub { name: "ladder", run: ladder, replay: replay_ladder }),
             Sub::Custom(CustomSub { name: "cases", run: fixed_cases, replay: replay_case }),
             Sub::Custom(CustomSub { name: "fuzz-total", run: fuzz_run, replay: fuzz_replay }),
